@@ -21,6 +21,25 @@ def main():
         passed.add('%s::%s' % (tc.get('classname'), tc.get('name')))
     os.unlink(path)
     missing = sorted(stable - passed)
+    # port contention (tests binding fixed ports while other pytest runs are alive) makes the HTTP tests
+    # error out; re-run the files of missing tests up to 3 times before calling them missing
+    for attempt in range(3):
+        if not missing:
+            break
+        files = sorted({'tests/' + '/'.join(m.split('::')[0].split('.')[1:3]) + '.py' for m in missing
+                        if not m.startswith('::')})
+        files = [f for f in files if os.path.exists(os.path.join('/repo', f))]
+        if not files:
+            break
+        fd, path2 = tempfile.mkstemp(suffix='.junit.xml'); os.close(fd)
+        subprocess.run(['/venv/bin/python', '-m', 'pytest', '-q', '-p', 'no:cacheprovider', '--timeout=900',
+                        '--junitxml=' + path2] + files, cwd='/repo', env=env, stdout=subprocess.PIPE,
+                       stderr=subprocess.STDOUT, text=True)
+        for tc in ET.parse(path2).getroot().iter('testcase'):
+            if not any(ch.tag in ('failure', 'error', 'skipped') for ch in tc):
+                passed.add('%s::%s' % (tc.get('classname'), tc.get('name')))
+        os.unlink(path2)
+        missing = sorted(stable - passed)
     print('baseline: %d passed, %d stable, %d stable missing, %d newly passing' % (
         len(passed), len(stable), len(missing), len(passed - stable)))
     for m in missing[:50]:
